@@ -30,6 +30,13 @@ def specs(tier):
     js += [J('steady3-fb1.5p:G4', 'steady', dict(n=3, fallback=0.015, exact_time=True), dict(G=4), dict(k=0)),
            J('steady2-nobatch-fb1.5p:G4S2', 'steady', dict(n=2, fallback=0.015, exact_time=True, batch=False), dict(G=4, S=2), dict(k=0)),
            J('steady2-nobatch-fb3.5p:G7S2', 'steady', dict(n=2, fallback=0.035, exact_time=True, batch=False), dict(G=7, S=2), dict(k=0))]
+    # membership requests (also refused ones: add of a current member) reaching a leader that is being cut off; a removed
+    # member stays in the transport-level connected set
+    MM = ('mc.monitors_c10', 'MembershipMonitor', dict(via=('api',), add_existing=True))
+    js += [J('m-steady2-fb1.5p:H2M1X1', 'steady', dict(n=2, dyn=True, fallback=0.015, exact_time=True), dict(H=2, M=1, X=1), dict(k=0),
+             extra_monitors=(FM, MM), clauses=('C03', 'C04', 'C10', 'C20')),
+           J('m-steady3-fb1.5p:H1M1X2', 'steady', dict(n=3, dyn=True, fallback=0.015, exact_time=True), dict(H=1, M=1, X=2), dict(k=0),
+             extra_monitors=(FM, MM), clauses=('C03', 'C04', 'C10', 'C20'))]
     js += [J('steady4-fb3.5p:F1X2', 'steady', dict(n=4, fallback=0.035, exact_time=True), dict(F=1, X=2), dict(k=0)),
            J('obs1-steady2-fb1.5p:H3X2', 'steady', dict(n=2, observers=1, fallback=0.015, exact_time=True), dict(H=3, X=2), dict(k=0)),
            J('split4-fb3.5p:F1E2', 'split', dict(n=4, fallback=0.035, exact_time=True), dict(F=1, E=2), dict(k=0)),
@@ -44,4 +51,4 @@ def main(tier, seed, job_filter=None):
 
 
 def replay_file(path):
-    return jobs.replay_file_cluster(PROP, path, [dict(s, clauses=('C20',), extra_monitors=(FM,)) for s in specs('thorough')])
+    return jobs.replay_file_cluster(PROP, path, [dict({'clauses': ('C20',), 'extra_monitors': (FM,)}, **s) for s in specs('thorough')])
